@@ -187,6 +187,26 @@ def e2e(ctx):
                        "expected_exit": mc, "expected_invocations": [[fw.hexs(a) for a in i] for i in minv]})
 
 
+def line_continuation(ctx):
+    """-L: "a line ending in a blank continues on the next line" - also when that blank is quoted by a backslash and so belongs to the
+    argument; a blank inside quotes before the newline does not continue the line (the line then ends in the quote)"""
+    with tempfile.TemporaryDirectory(prefix="c04l-", dir=fw.BUILD) as td:
+        for data, want in ((b"a\\ \nb\nc\n", [[b"a ", b"b"], [b"c"]]), (b"a\\\t\nb\nc\n", [[b"a\t", b"b"], [b"c"]]), (b"a \nb\nc\n", [[b"a", b"b"], [b"c"]]),
+                           (b"'a '\nb\nc\n", [[b"a "], [b"b"], [b"c"]]), (b"a\\ x\nb\n", [[b"a x"], [b"b"]]), (b"a\\ \n\nb\nc\n", [[b"a ", b"b"], [b"c"]]),
+                           (b"a\\\n\nb\nc\n", [[b"a\n"], [b"b"], [b"c"]])):
+            rec = os.path.join(td, "rec")
+            if os.path.exists(rec):
+                os.remove(rec)
+            p = subprocess.run([fw.XARGS, "-L", "1", fw.FUV, "record"], input=data, stdout=subprocess.DEVNULL, stderr=subprocess.DEVNULL,
+                               env=dict(xc.ENV, FUV_RECORD=rec), timeout=60)
+            got = [[fw.unhex(x) for x in line.split()[1:]] for line in open(rec)] if os.path.exists(rec) else []
+            ctx.count(("line-continuation", data), True, "line-continuation")
+            if got != want or p.returncode != 0:
+                ctx.violation("xargs -L 1 on %r: invocations %r (exit %d), expected %r" % (data, got, p.returncode, want),
+                              {"property": "C04", "kind": "line-continuation", "input_hex": fw.hexs(data), "exit": p.returncode,
+                               "invocations": [[fw.hexs(a) for a in i] for i in got], "expected": [[fw.hexs(a) for a in i] for i in want]})
+
+
 def run(ctx):
     rng = ctx.rng
     ncases = 60000 if ctx.thorough else 4000
@@ -200,6 +220,7 @@ def run(ctx):
         ctx.sample({"options": opts_of(c), "command": [x.decode() for x in c["cmd"]], "input": xc.render(c["toks"])[0].decode()})
     report(ctx, bad)
     e2e(ctx)
+    line_continuation(ctx)
 
 
 def replay(ctx, rep):
